@@ -226,8 +226,8 @@ func (c *Check) Finish() {
 	for k, v := range c.Extra {
 		cov[k] = v
 	}
-	if c.Samples == nil {
-		cov["samples"] = []interface{}{}
+	if len(c.Samples) == 0 {
+		machineryFail("%s: the run recorded no sample cases", c.Prop)
 	}
 	ev := map[string]interface{}{
 		"property_id": c.Prop,
